@@ -80,6 +80,23 @@ def _block(stmts, fn_counts):
         if isinstance(s, ast.Assign) and len(s.targets) == 1 and isinstance(s.targets[0], ast.Name) and isinstance(s.value, ast.BinOp) \
                 and isinstance(s.value.op, (ast.Add, ast.Sub)) and isinstance(s.value.left, ast.Name) and s.value.left.id == s.targets[0].id:
             s = ast.copy_location(ast.AugAssign(target=s.targets[0], op=s.value.op, value=s.value.right), s)
+        # 6. `x = [E for T in I if C]` on a plain local is the explicit loop
+        if isinstance(s, ast.Assign) and len(s.targets) == 1 and isinstance(s.targets[0], ast.Name) and isinstance(s.value, ast.ListComp) \
+                and len(s.value.generators) == 1 and not s.value.generators[0].is_async \
+                and not any(isinstance(x, (ast.ListComp, ast.SetComp, ast.DictComp, ast.GeneratorExp, ast.Lambda, ast.Await, ast.NamedExpr))
+                            for x in ast.walk(s.value) if x is not s.value) \
+                and not any(isinstance(x, ast.Name) and x.id == s.targets[0].id for x in ast.walk(s.value)):
+            g = s.value.generators[0]
+            x = s.targets[0].id
+            inner = ast.copy_location(ast.Expr(value=ast.copy_location(ast.Call(
+                func=ast.Attribute(value=ast.Name(id=x, ctx=ast.Load()), attr='append', ctx=ast.Load()), args=[s.value.elt], keywords=[]), s.value)), s.value)
+            for c in reversed(g.ifs):
+                inner = ast.copy_location(ast.If(test=c, body=[inner], orelse=[]), c)
+            loop = ast.copy_location(ast.For(target=g.target, iter=g.iter, body=[inner], orelse=[], type_comment=None), s.value)
+            ast.fix_missing_locations(loop)
+            init = ast.copy_location(ast.Assign(targets=[s.targets[0]], value=ast.copy_location(ast.List(elts=[], ctx=ast.Load()), s.value)), s)
+            stmts[i:i + 1] = [init, loop]
+            s = init
         # recurse into compound statements
         for fld in ('body', 'orelse', 'finalbody'):
             b = getattr(s, fld, None)
@@ -92,6 +109,17 @@ def _block(stmts, fn_counts):
             for c in s.cases:
                 c.body = _block(c.body, fn_counts)
         if isinstance(s, ast.If):
+            # 7. an awaited value tested by an `if` has a name: `if [not] await f(..)` is `v = await f(..); if [not] v`
+            core = s.test.operand if isinstance(s.test, ast.UnaryOp) and isinstance(s.test.op, ast.Not) else s.test
+            if isinstance(core, ast.Await) and isinstance(core.value, ast.Call):
+                nm = f'awaited__{core.lineno}'
+                bind = ast.copy_location(ast.Assign(targets=[ast.copy_location(ast.Name(id=nm, ctx=ast.Store()), core)], value=core), core)
+                ref = ast.copy_location(ast.Name(id=nm, ctx=ast.Load()), core)
+                if core is s.test:
+                    s.test = ref
+                else:
+                    s.test.operand = ref
+                out.append(bind)
             # 3. if not c: A else: B
             if s.orelse and isinstance(s.test, ast.UnaryOp) and isinstance(s.test.op, ast.Not):
                 s.test, s.body, s.orelse = s.test.operand, s.orelse, s.body
@@ -111,8 +139,13 @@ def _block(stmts, fn_counts):
             if tot == (1, 1) and not isinstance(nxt, (ast.FunctionDef, ast.AsyncFunctionDef, ast.ClassDef, ast.For, ast.AsyncFor, ast.While, ast.Try, ast.With, ast.AsyncWith)):
                 head = nxt.test if isinstance(nxt, ast.If) else nxt
                 l, st = _count_names(head, name)
-                if l == 1 and st == 0 and not isinstance(s.value, (ast.Await, ast.Yield, ast.YieldFrom)) and not any(
-                        isinstance(x, (ast.Await, ast.Yield, ast.YieldFrom)) for x in ast.walk(s.value)):
+                has_await = any(isinstance(x, (ast.Await, ast.Yield, ast.YieldFrom)) for x in ast.walk(s.value))
+                if has_await and not isinstance(nxt, ast.If) and not any(isinstance(x, (ast.Yield, ast.YieldFrom)) for x in ast.walk(s.value)):
+                    # an awaited value may move into the next statement only if nothing with an effect is evaluated before it there
+                    use = [x for x in ast.walk(head) if isinstance(x, ast.Name) and x.id == name]
+                    pos = (use[0].lineno, use[0].col_offset) if use else (0, 0)
+                    has_await = any(isinstance(x, (ast.Call, ast.Await)) and (x.end_lineno, x.end_col_offset) <= pos for x in ast.walk(head))
+                if l == 1 and st == 0 and not has_await:
                     sub = _Subst(name, s.value)
                     if isinstance(nxt, ast.If):
                         nxt.test = sub.visit(nxt.test)
@@ -126,20 +159,83 @@ def _block(stmts, fn_counts):
     return out
 
 
+def _counts(fn):
+    counts = {}
+    for x in ast.walk(fn):
+        if isinstance(x, ast.Name):
+            l, s = counts.get(x.id, (0, 0))
+            counts[x.id] = (l + 1, s) if isinstance(x.ctx, ast.Load) else (l, s + 1)
+        elif isinstance(x, (ast.Global, ast.Nonlocal)):
+            for nm in x.names:
+                counts[nm] = (99, 99)
+        elif isinstance(x, ast.arg):
+            counts[x.arg] = (99, 99)
+    return counts
+
+
+class _RenameLoads(ast.NodeTransformer):
+    def __init__(self, m):
+        self.m = m
+
+    def visit_Name(self, n):
+        if n.id in self.m and isinstance(n.ctx, ast.Load):
+            import copy
+            return ast.copy_location(copy.deepcopy(self.m[n.id]), n)
+        return n
+
+
+def _propagate_generated_copies(fn):
+    """`p__hN = <name or self.attr chain>` introduced by helper expansion: when neither side is bound again, read the source"""
+    counts = _counts(fn)
+    m = {}
+    dead = []
+    for x in ast.walk(fn):
+        if isinstance(x, ast.Assign) and len(x.targets) == 1 and isinstance(x.targets[0], ast.Name) and '__h' in x.targets[0].id:
+            t = x.targets[0].id
+            v = x.value
+            base = v
+            while isinstance(base, ast.Attribute):
+                base = base.value
+            if counts.get(t, (0, 0))[1] == 1 and isinstance(base, ast.Name) and (counts.get(base.id, (0, 0))[1] <= 1 or counts.get(base.id) == (99, 99)) \
+                    and (isinstance(v, ast.Name) or (isinstance(base, ast.Name) and base.id in ('self', 'cls'))):
+                # a parameter of the caller that is re-bound somewhere is not a stable source
+                stores = sum(1 for y in ast.walk(fn) if isinstance(y, ast.Name) and y.id == base.id and isinstance(y.ctx, ast.Store))
+                if stores <= (1 if counts.get(base.id) != (99, 99) else 0):
+                    m[t] = v
+                    dead.append(x)
+    if not m:
+        return
+
+    def strip(stmts):
+        out = []
+        for s in stmts:
+            if s in dead:
+                continue
+            for fld in ('body', 'orelse', 'finalbody'):
+                b = getattr(s, fld, None)
+                if isinstance(b, list) and b and isinstance(b[0], ast.stmt):
+                    setattr(s, fld, strip(b) or [ast.copy_location(ast.Pass(), s)])
+            if isinstance(s, ast.Try):
+                for h in s.handlers:
+                    h.body = strip(h.body) or [ast.copy_location(ast.Pass(), s)]
+            out.append(s)
+        return out
+    fn.body = strip(fn.body)
+    _RenameLoads(m).visit(fn)
+
+
+def canonicalise_function(fn, generated=False):
+    if generated:
+        _propagate_generated_copies(fn)
+        _Expr().visit(fn)
+    fn.body = _block(fn.body, _counts(fn))
+    ast.fix_missing_locations(fn)
+
+
 def canonicalise(tree):
     """in-place canonicalisation of a module tree; returns the tree"""
     _Expr().visit(tree)
     for fn in [n for n in ast.walk(tree) if isinstance(n, (ast.FunctionDef, ast.AsyncFunctionDef))]:
-        counts = {}
-        for x in ast.walk(fn):
-            if isinstance(x, ast.Name):
-                l, s = counts.get(x.id, (0, 0))
-                counts[x.id] = (l + 1, s) if isinstance(x.ctx, ast.Load) else (l, s + 1)
-            elif isinstance(x, (ast.Global, ast.Nonlocal)):
-                for nm in x.names:
-                    counts[nm] = (99, 99)
-            elif isinstance(x, ast.arg):
-                counts[x.arg] = (99, 99)
-        fn.body = _block(fn.body, counts)
+        fn.body = _block(fn.body, _counts(fn))
     ast.fix_missing_locations(tree)
     return tree
